@@ -2442,9 +2442,22 @@ impl Unparser<'_> {
                     ast::JoinOperator::CrossJoin(constraint)
                 }
             },
-            JoinType::Left => ast::JoinOperator::LeftOuter(constraint),
-            JoinType::Right => ast::JoinOperator::RightOuter(constraint),
-            JoinType::Full => ast::JoinOperator::FullOuter(constraint),
+            JoinType::Left | JoinType::Right | JoinType::Full => {
+                // An outer join must be written with a condition. One without
+                // keys and filter (e.g. after the optimizer moved the condition
+                // into the inputs) matches every pair of rows: `ON true`
+                let constraint = match constraint {
+                    ast::JoinConstraint::None => ast::JoinConstraint::On(
+                        ast::Expr::value(ast::Value::Boolean(true)),
+                    ),
+                    constraint => constraint,
+                };
+                match join_type {
+                    JoinType::Left => ast::JoinOperator::LeftOuter(constraint),
+                    JoinType::Right => ast::JoinOperator::RightOuter(constraint),
+                    _ => ast::JoinOperator::FullOuter(constraint),
+                }
+            }
             JoinType::LeftAnti => ast::JoinOperator::LeftAnti(constraint),
             JoinType::LeftSemi => ast::JoinOperator::LeftSemi(constraint),
             JoinType::RightAnti => ast::JoinOperator::RightAnti(constraint),
